@@ -243,6 +243,8 @@ func (i *Interpreter) createDirectorRequest(ctx *context.Context, dc *value.Dire
 	if err != nil {
 		return nil, errors.WithStack(err)
 	}
+	// Remember the member the director chose: the fetch goes to it, not to the director itself
+	i.directorBackend = backend
 	return i.createBackendRequest(ctx, backend)
 }
 
